@@ -623,6 +623,14 @@ func (env *SpecEnv) call(n *ast.CallExpr) Val {
 			return vBool(sEq(a.T, b.T))
 		}
 		return vBool(sEq(a.T, b.T))
+	case "changedOnly":
+		// changedOnly(arr, lo, hi): array arr differs from its old content at most at positions [lo, hi)
+		need(3)
+		a, lo, hi := arg(0), arg(1), arg(2)
+		mNow, mOld := sSel(env.st.get("Mem"), a.T), sSel(env.old.get("Mem"), a.T)
+		j := sym(e.fresh("q"))
+		return vBool(fmt.Sprintf("(forall ((%s Int)) (! (=> (not (and (<= %s %s) (< %s %s))) (= (select %s %s) (select %s %s))) :pattern ((select %s %s))))",
+			j, lo.T, j, j, hi.T, mNow, j, mOld, j, mNow, j))
 	case "mkslice":
 		// mkslice(arr, off, len): the byte window [off, off+len) of array arr
 		need(3)
